@@ -94,6 +94,6 @@ def run(tier, out, model_ok, proof):
         "exhaustive": False,
     })
     out.assumptions += [
-        "PARTIAL: per-state byte-class equivalences are theorems; whole-document invariance is checked metamorphically on the implementation",
+        "PARTIAL: per-state byte-class equivalences and their lift to whole files (LF/CR, blank/tab: same lexemes, same end) are theorems, for the same oracle answers; CRLF, trivia, re-indentation, explicit contexts and the lift from lexemes to catalogs are checked metamorphically on the implementation",
         "trivia inside or directly before/after schema bodies belongs to the dependency (oracle) and is not rewritten",
     ]
